@@ -9,7 +9,10 @@ matter), `dbg_identity_partial` / `dbg_identity_behaviour_partial` / `dbgwrapChe
 check fails), `dbgwrapCheck_sound`, `annotCheck_sound`.
 
 Per input. Programs: RGen programs (refactor_common; closures, assignment, loops, match) + "typed" programs (generic
-functions, lists, nested lists, tuples, Option / Result, user enums, closures with and without hints, Unit).
+functions, lists, nested lists, tuples, Option / Result, user enums, closures with and without hints, Unit; lets bound to
+FUNCTION VALUES — generic functions with the type parameter nested in List / Option / tuple / Fun, plain functions,
+closures —, lets inside generic functions and inside closures in them, early `return`, lets written without spaces
+around `=`) + struct programs (generic and plain struct values; annotation only).
 * wrap-in-dbg at expression positions (every node kind, sampled per program): the real tool (hook op `refactor
   wrap_in_dbg` = the function behind `garden reftest-wrap-in-dbg`; a sample also through the CLI) is called with the
   node's span. Validator: the Lean driver (`dbgwrap_check`) matches the two REAL parser trees against `IsDbgWrap`
@@ -29,7 +32,8 @@ Failure keys (fixed; classified by tool + construct, never by the input):
      (node kinds: the 23 `astq` kinds int str var binop let assign update if while for match return break continue
       list tuple call mcall lambda assert paren invalid unsup),
   C21/add-type-annotation/{wrong-text,does-not-parse,new-diagnostic,behaviour-changed}/<site>/<type shape>
-     (site: let | param | return; type shape: Int String Bool Unit List Tuple Option Result Fun NoValue generic other).
+     (site: let | let-in-closure | param | return | closure-param | closure-return; type shape: Int String Bool Unit List Tuple Option Result Fun NoValue
+      generic struct-missing-type-args other).
 """
 import os
 import re
@@ -55,6 +59,10 @@ VALUES = [
     ("Unit", 'println("u")'), ("generic", "idt(3)"), ("generic", "idt([1])"), ("generic", 'idt((1, "s"))'),
     ("generic", "idt(Some(1))"), ("enum", "Red"), ("enum", "Green(2)"), ("Int", "mk_int()"), ("List", "mk_list(2)"),
     ("Tuple", "mk_pair(1)"), ("Option", "mk_opt(0)"), ("Fun", "mk_fun()"), ("Fun", "g2"), ("Fun", "idt"),
+    # function VALUES: generic functions with the type parameter nested in List / Option / tuple / Fun, plain functions
+    ("FunL", "firsts"), ("FunO", "optid"), ("FunP", "pairup"), ("FunA", "applyf"), ("Fun0", "mk_int"), ("Fun1", "mk_opt"),
+    ("generic", "firsts([1, 2])"), ("generic", "optid(Some(2))"), ("generic", "pairup(\"s\")"),
+    ("generic", "applyf(fun(q: Int): Int { q + 1 }, 2)"), ("generic", "inner(5)"), ("Int", "early2(0)"),
 ]
 
 PRELUDE = """fun idt<T>(v: T): T {
@@ -86,6 +94,36 @@ fun early(n: Int) {
   if n > 1 { return "big" }
   "small"
 }
+fun early2(n: Int) {
+  if n > 1 { return "x" }
+  1
+}
+fun firsts<T>(xs: List<T>): List<T> {
+  xs
+}
+fun optid<T>(o: Option<T>): Option<T> {
+  o
+}
+fun pairup<T>(a: T): (T, T) {
+  (a, a)
+}
+fun applyf<T>(f: Fun<(T), T>, v: T): T {
+  f(v)
+}
+fun inner<T>(v: T): T {
+  let direct = v
+  let c = fun() {
+    let ww = v
+    ww
+  }
+  let c2 = fun(q) {
+    let zz = (q, v)
+    zz
+  }
+  println(string_repr(c2(1)))
+  println(string_repr(direct))
+  c()
+}
 """
 
 
@@ -97,6 +135,10 @@ def gen_typed_program(rng):
     feats = {}
 
     def use(name, ty, src):
+        calls = {"FunL": "%s([1])", "FunO": "%s(Some(1))", "FunP": "%s(1)", "FunA": "%s(fun(q) { q }, 1)", "Fun0": "%s()",
+                 "Fun1": "%s(1)"}
+        if ty in calls:
+            return "println(string_repr(%s))" % (calls[ty] % name)
         if ty == "Fun":
             if "q: Int, r" in src:
                 return 'println(string_repr(%s(1, "r")))' % name
@@ -117,7 +159,8 @@ def gen_typed_program(rng):
         nm = "v%d" % cnt[0]
         feats[ty] = feats.get(ty, 0) + 1
         pad = "  " * ind
-        return ["%slet %s = %s" % (pad, nm, src), pad + use(nm, ty, src)]
+        eq = rng.choice([" = ", " = ", " = ", "=", "= ", " ="])       # `let xs=[1]`: the hint is followed by `=`
+        return ["%slet %s%s%s" % (pad, nm, eq, src), pad + use(nm, ty, src)]
 
     def stmts(ind, depth):
         res = []
@@ -162,7 +205,39 @@ def gen_typed_program(rng):
     return "\n".join(out) + "\n", feats
 
 
-def type_shape(hint):
+STRUCT_PRELUDE = """struct Box<T> {
+  v: T,
+}
+struct Pt {
+  x: Int,
+  y: Int,
+}
+fun unbox<T>(b: Box<T>): T {
+  b.v
+}
+"""
+
+
+def gen_struct_program(rng):
+    """Generic and plain struct values bound by unannotated lets (annotation jobs only: structs are outside the
+    trees the dbg validator reads)."""
+    out = [STRUCT_PRELUDE]
+    vals = [("Box{ v: 1 }", "%s.v"), ('Box{ v: "s" }', "%s.v"), ("Pt{ x: 1, y: 2 }", "%s.x"), ("Box{ v: [1] }", "%s.v"),
+            ("unbox(Box{ v: 2 })", "%s"), ("[Pt{ x: 1, y: 2 }]", "%s"), ("Some(Box{ v: 1 })", "%s")]
+    for k in range(rng.randrange(2, 6)):
+        src, use = rng.choice(vals)
+        nm = "s%d" % k
+        out.append("let %s = %s" % (nm, src))
+        if "%s" in use and use != "%s":
+            out.append("println(string_repr(%s))" % (use % nm))
+    return "\n".join(out) + "\n", {"struct": 1}
+
+
+def type_shape(hint, src=""):
+    h0 = hint.strip()
+    for gs in re.findall(r"\bstruct (\w+)<", src):
+        if re.search(r"\b%s\b(?!<)" % re.escape(gs), h0):       # a generic struct named without type arguments
+            return "struct-missing-type-args"
     h = hint.strip()
     if h.startswith("("):
         return "Tuple"
@@ -210,6 +285,8 @@ def annotation_sites(astq_text, src):
         counter[0] += 1
         return i, (x == "nohint")
 
+    depth = [0]
+
     def header(params, rh, block, trigger, kind_ret="return"):
         block_start = int(block[1])
         ret_ins = b.rfind(b")", 0, block_start) + 1
@@ -236,12 +313,22 @@ def annotation_sites(astq_text, src):
             header(x[2], x[3], x[4], (int(x[1][2]), int(x[1][3])))
         elif h == "lambda":
             open_paren = b.find(b"(", int(x[3]))
+            depth[0] += 1
+            n0 = len(sites)
             header(x[5], x[6], x[7], (open_paren, open_paren + 1))
+            depth[0] -= 1
+            # the header sites of a closure are keyed apart from those of toplevel functions
+            ren = {"param": "closure-param", "return": "closure-return"}
+            for q in range(n0, len(sites)):
+                sk, a0, a1, sl, al = sites[q]
+                if sk in ren and (a0, a1) in ([(open_paren, open_paren + 1)] + [(int(p_[1][2]), int(p_[1][3])) for p_ in x[5][1:]]):
+                    sites[q] = (ren[sk], a0, a1, sl, {o_: (ren.get(kk, kk), ii) for o_, (kk, ii) in al.items()})
         elif h == "let":
             d = x[5]
             i, empty = slot(x[6])
             if empty and d[0] == "sym" and d[1][1] != "_":
-                sites.append(("let", int(d[1][2]), int(d[1][3]), i, {int(d[1][3]): ("let", i)}))
+                lk = "let-in-closure" if depth[0] > 0 else "let"
+                sites.append((lk, int(d[1][2]), int(d[1][3]), i, {int(d[1][3]): (lk, i)}))
             walk(x[7])
         elif h in ("s", "sym", "destr", "enum", "hint"):
             return
@@ -277,6 +364,9 @@ def run(ctx):
                 "statement (something around it must stay); annotation: the tool produced a hint." % (n_r, n_t, max_dbg))
     progs = [RC.gen_program(rng, size=rng.choice([15, 28, 40]), closures=rng.random() < 0.7) for _ in range(n_r)]
     progs += [gen_typed_program(rng) for _ in range(n_t)]
+    n_s = ctx.scale(30, 300)
+    ann_only = set(range(len(progs), len(progs) + n_s))
+    progs += [gen_struct_program(rng) for _ in range(n_s)]
     srcs = [p for p, _ in progs]
     n = len(srcs)
     feats = {}
@@ -306,8 +396,9 @@ def run(ctx):
         rest = [e for e in nodes if not any(e is c for c in chosen)]
         rng.shuffle(rest)
         chosen = (chosen + rest)[:max_dbg] if len(chosen) <= max_dbg else rng.sample(chosen, max_dbg)
-        for e in chosen:
-            dbg_jobs.append((i, e))
+        if i not in ann_only:
+            for e in chosen:
+                dbg_jobs.append((i, e))
         if i >= n_r or rng.random() < 0.25:
             sites = annotation_sites(astq[i][3:], s)
             if len(sites) > max_ann:
@@ -381,7 +472,7 @@ def run(ctx):
             continue
         skind, slot = where
         site = (skind, st, en, slot, allowed)
-        shape = type_shape(hint[2:])
+        shape = type_shape(hint[2:], src)
         shape_hist[skind + "/" + shape] = shape_hist.get(skind + "/" + shape, 0) + 1
         achecked.append((i, site, txt, hint[2:], shape))
         if len(ctx.samples) < 8 and shape in ("List", "Tuple", "Fun", "Option"):
